@@ -543,6 +543,29 @@ def rename_typevars_apart(src):
     return out
 
 
+def chain_branches(src):
+    """branches `t1, t2 [, ..] => c` of `{ | .. | .. }` blocks whose condition chains >= 2 steps:
+    (open brace, close brace, branch texts, index, condition text)"""
+    out = []
+    flat = src.replace("[", "(").replace("]", ")").replace("{", "(").replace("}", ")")
+    for m in re.finditer(r"\{", strip_strings(src)):
+        j = m.start()
+        if src[j] != "{":
+            continue
+        e = balanced_end(flat, j)
+        parts = split_top(src[j + 1:e], "|")
+        if len(parts) < 3:
+            continue
+        for i, part in enumerate(parts):
+            k = part.find("=>")
+            if k < 0 or not part.strip():
+                continue
+            cond = part[:k]
+            if len([t for t in split_top(cond, ",") if t.strip()]) >= 2:
+                out.append((j, e, parts, i, cond))
+    return out
+
+
 def prefixes(src):
     """programs that stop early: after each term of each top-level step (latest first)"""
     steps = split_steps(src)
@@ -581,6 +604,7 @@ FINDING_IDS = {
     "nil-through-type-test": "F13c01", "failed-match-binder": "F74", "tail-branch-never": "F66",
     "unify-recursive-tail": "F67", "partial-position": "F68", "implicit-nil-application": "F58",
     "star-partial-nil-binder": "F80", "typevar-capture": "F81",
+    "dead-chain-complement": "F86",
     "union-widening-dropped": "F83",
 }
 
@@ -625,7 +649,8 @@ class Classifier:
         for name, fn in (("nil-binder", self.sig_f27), ("star-partial-nil-binder", self.sig_star_nil),
                          ("failed-match-binder", self.sig_failed_match), ("stale-narrowing", self.sig_f53),
                          ("match-provenance", self.sig_f54), ("tail-call-arg", self.sig_f1),
-                         ("partial-position", self.sig_partial), ("nil-through-type-test", self.sig_f13),
+                         ("partial-position", self.sig_partial), ("dead-chain-complement", self.sig_dead_chain),
+                         ("nil-through-type-test", self.sig_f13),
                          ("typevar-capture", self.sig_typevar_capture),
                          ("unify-recursive-tail", self.sig_unify_cycle),
                          ("union-widening-dropped", self.sig_union_widening),
@@ -663,6 +688,49 @@ class Classifier:
             return False
         recs = self.outcomes(variants, mods)
         return any(r["status"] == "accepted" and not r["failure"] for r in recs)
+
+    # ---- dead-chain-complement: a branch condition that chains several tests on one provenance and
+    # can NEVER succeed (a later test is statically impossible after the earlier one) still
+    # subtracts the earlier tests' narrowing from the complement seen by the following branches.
+    # Signature: (1) with that branch deleted the program is accepted and passes; (2) the compiler
+    # itself types the chained condition as statically failing: the function cut after it, with
+    # the condition as its last branch, has no `Ok` in its DECLARED result type.
+    def sig_dead_chain(self, src, mods, failure):
+        cands = []
+        for (j, e, parts, i, cond) in chain_branches(src):
+            without = src[:j + 1] + "|".join(parts[:i] + parts[i + 1:]) + src[e:]
+            # the function cut after the chained condition, returned BY REFERENCE: its declared
+            # result type (not a call site's, which is specialised to the argument) is inspected
+            names = re.findall(r"([a-z][A-Za-z0-9_]*)\s*=\s*#", src[:j])
+            if not names:
+                continue
+            cut_src = src[:j + 1] + "|".join(parts[:i] + [" " + cond.strip() + " "]) + src[e:]
+            steps = split_steps(cut_src)
+            cut = ",\n".join(steps[:-1] + ["&" + names[-1]])
+            cands.append((without, cut))
+        if not cands:
+            return False
+        cands = cands[:6]
+        recs = self.outcomes([w for w, _ in cands] + [c for _, c in cands], mods)
+        n = len(cands)
+        for k in range(n):
+            rw, rc = recs[k], recs[n + k]
+            if not (rw["status"] == "accepted" and not rw["failure"]):
+                continue
+            if rc["status"] != "accepted" or rc["run"] is None or rc["run"].rtype is None:
+                continue
+            try:
+                types, tuples = parse_tables(rc["run"].tables)
+            except (ValueError, IndexError):
+                continue
+            ft = types[rc["run"].rtype]
+            if ft[0] != "fn":
+                continue
+            t = types[int(ft[2])]
+            members = [types[int(x)] for x in t[1:]] if t[0] == "union" else [t]
+            if ["tuple", "1"] not in members:
+                return True
+        return False
 
     # ---- nil-through-type-test (F13): nil passes a later `='T` test after an earlier branch narrowed
     # the union. Signature: the program applies a callable to the literal nil, and the failure is
